@@ -108,6 +108,10 @@ def check(run, model, tier):
                             ok = isinstance(a0, ast.Name) and a0.id == publish.params[1] and isinstance(a1, ast.Name) and a1.id == publish.params[2]
                             run.inst('CMP.queue-kind', ff, 'put %s' % norm(item), ok,
                                      '' if ok else 'the queued item is not built from the published (event, priority)', node=c, obligation=True)
+                    elif isinstance(item, ast.Constant):
+                        run.inst('CMP.queue-kind', ff, 'put %s' % norm(item), False,
+                                 'the constant %s is put into a fabric priority queue: it cannot be ordered against the queued publications (TypeError from the heap unless the queue is empty)' % norm(item),
+                                 node=c, obligation=True)
                     else:
                         raise AnalysisError('%s: object put into a fabric priority queue is not a visible constructor call' % ff.qualname)
     run.floor('put sites on fabric priority queues', n_put, 3)
